@@ -12,13 +12,13 @@ Local Open Scope list_scope.
 
 (* ================= validator_parser.rs ================= *)
 
-(* parse_message_from_content, the closing-quote scan: chars().enumerate() gives the CHARACTER
-   index of the closing quote (continuation bytes do not count) *)
+(* parse_message_from_content, the closing-quote scan (repaired: char_indices): the BYTE offset of
+   the closing quote; continuation bytes advance the offset but are not looked at *)
 Fixpoint scan (q : ascii) (s : str) (i : nat) (escaped : bool) : option nat :=
   match s with
   | [] => None
   | b :: s' =>
-      if is_cont b then scan q s' i escaped
+      if is_cont b then scan q s' (S i) escaped
       else if escaped then scan q s' (S i) false
       else if Ascii.eqb b "\" then scan q s' (S i) true
       else if Ascii.eqb b q then Some i
@@ -32,7 +32,7 @@ Definition unescape (m : str) : str :=
         (replace (L "\'") (L "'")
           (replace (L "\""") (L """") m)))).
 
-(* the site that uses a character index as a byte index: (rest, i) of `&rest[..i]` *)
+(* (rest, i) of the slice `&rest[..i]`, i = byte offset of the closing quote *)
 Definition msg_site (content : str) : outcome (option (str * nat)) :=
   match find (L "message") content with
   | None => Ok None
@@ -146,7 +146,7 @@ Definition rename_all_b (tokens : str) : outcome (option str) :=
       end
   end.
 
-(* parse_rename: the while-let loop with search_start = abs_pos + 10 *)
+(* parse_rename: the while-let loop; repaired restart offset tokens.len() - trimmed.len() + 4 *)
 Fixpoint rename_go (fuel : nat) (tokens : str) (search_start : nat) : outcome (option str) :=
   match fuel with
   | 0 => OutOfFuel
@@ -157,7 +157,8 @@ Fixpoint rename_go (fuel : nat) (tokens : str) (search_start : nat) : outcome (o
       | Some pos =>
           let abs_pos := search_start + pos in
           do after_rename <- slice_from tokens (abs_pos + 6);
-          if starts (L "_all") (trim_start after_rename) then rename_go f tokens (abs_pos + 10)
+          let trimmed := trim_start after_rename in
+          if starts (L "_all") trimmed then rename_go f tokens (List.length tokens - List.length trimmed + 4)
           else match find_char "=" after_rename with
                | None => Ok None
                | Some e => do a <- slice_from after_rename (e + 1); quoted_b (trim_start a)
@@ -313,13 +314,20 @@ Definition pair_b (fuel_call : str -> outcome (list str)) (inner : str) : outcom
   | None => Ok []
   end.
 
+(* Result<..>: both arms, or the single argument of a one-argument alias (repaired) *)
+Definition result_names_b (fuel_call : str -> outcome (list str)) (inner : str) : outcome (list str) :=
+  match find_char "," inner with
+  | Some _ => pair_b fuel_call inner
+  | None => fuel_call inner
+  end.
+
 Fixpoint names_go (fuel : nat) (s0 : str) : outcome (list str) :=
   match fuel with
   | 0 => OutOfFuel
   | S f =>
     let s := trim s0 in
     if starts (L "Result<") s then
-      match strip_wrapped (L "Result<") s with Some inner => pair_b (names_go f) inner | None => Ok [] end
+      match strip_wrapped (L "Result<") s with Some inner => result_names_b (names_go f) inner | None => Ok [] end
     else if starts (L "Option<") s then
       match strip_wrapped (L "Option<") s with Some inner => names_go f inner | None => Ok [] end
     else if starts (L "Vec<") s then
@@ -405,35 +413,51 @@ Definition apply_to_field_b (r : rule) (s : str) : outcome str :=
   | RKebab => Ok (us_to_dash s)
   | RScreamingKebab => Ok (us_to_dash (map up s))
   end.
-(* NamingContext::event_name_to_function *)
+(* NamingContext::apply_naming_convention (repaired call-site guard): CamelCase is computed from the
+   PascalCase form with chars(), never slicing; an empty PascalCase form returns the name unchanged *)
+Definition naming_b (r : rule) (s : str) : outcome str :=
+  match r with
+  | RCamel => match pascal true s with [] => Ok s | c :: rest => Ok (low c :: rest) end
+  | _ => apply_to_field_b r s
+  end.
+(* NamingContext::event_name_to_function (repaired): every character that is not ASCII alphanumeric
+   becomes one underscore, then PascalCase *)
+Definition ascii_alnum (b : ascii) : bool := ascii_alpha b || ((48 <=? byte_n b)%N && (byte_n b <=? 57)%N).
+Fixpoint norm_event (s : str) : str :=
+  match s with
+  | [] => []
+  | b :: r => if is_cont b then norm_event r else (if ascii_alnum b then b else "_") :: norm_event r
+  end.
 Definition event_fn_b (name : str) : outcome str :=
-  do p <- apply_to_field_b RPascal (map (fun c => if Ascii.eqb c "-" then "_" else c) name); Ok (L "on" ++ p).
+  do p <- naming_b RPascal (norm_event name); Ok (L "on" ++ p).
+
+(* serde-rename-rule apply_to_variant as called by NamingContext::compute_variant_name (new with the
+   variant-rule repair). CamelCase slices variant[..1] / variant[1..]. char::is_uppercase is exact on
+   ASCII only: the value is compared with the code for ASCII names, the outcome for every name *)
+Definition ascii_upper (b : ascii) : bool := (65 <=? byte_n b)%N && (byte_n b <=? 90)%N.
+Fixpoint snake_go (first : bool) (s : str) : str :=
+  match s with
+  | [] => []
+  | c :: r => (if negb first && ascii_upper c then ["_"] else []) ++ low c :: snake_go false r
+  end.
+Definition variant_camel_b (s : str) : outcome str :=
+  do h <- slice_to s 1; do t <- slice_from s 1; Ok (map low h ++ t).
+Definition apply_to_variant_b (r : rule) (s : str) : outcome str :=
+  match r with
+  | RPascal => Ok s
+  | RLower => Ok (map low s)
+  | RUpper => Ok (map up s)
+  | RCamel => variant_camel_b s
+  | RSnake => Ok (snake_go true s)
+  | RScreamingSnake => Ok (map up (snake_go true s))
+  | RKebab => Ok (us_to_dash (snake_go true s))
+  | RScreamingKebab => Ok (us_to_dash (map up (snake_go true s)))
+  end.
 
 (* ================= recorded defect classes (narrow, anchored to one call site each) ================= *)
 
-(* C15-msg: validator_parser.rs `&rest[..i]`: the character index of the closing quote is not a
-   byte boundary of rest (needs a multi-byte character before the closing quote) *)
-Definition kf_msg_content (content : str) : bool :=
-  match msg_site content with
-  | Ok (Some (rest, i)) => negb ((i <=? List.length rest)%nat && boundary rest i)
-  | _ => false
-  end.
-Definition kf_msg_kw (kw tokens : str) : bool :=
-  contains kw tokens &&
-  match content_b kw tokens with Ok (Some c) => kf_msg_content c | _ => false end.
-Definition kf_C15_msg (tokens : str) : bool := kf_msg_kw (L "length") tokens || kf_msg_kw (L "range") tokens.
-
-(* C15-rename: serde_parser.rs `search_start = abs_pos + 10`: some occurrence of `rename` is
-   followed by white space that contains a non-ASCII white-space character and then `_all` *)
-Definition ws_prefix_len (s : str) : nat := List.length s - List.length (trim_start s).
-Definition rename_ws_at (s : str) : bool :=        (* s starts at an occurrence of rename *)
-  starts (L "rename") s &&
-  let after := skipn 6 s in
-  starts (L "_all") (trim_start after) && negb (forallb is_ascii (firstn (ws_prefix_len after) after)).
-Fixpoint kf_C15_rename (tokens : str) : bool :=
-  rename_ws_at tokens || match tokens with [] => false | _ :: r => kf_C15_rename r end.
-
-(* C15-camel: serde-rename-rule `pascal[..1]`: the PascalCase form is empty (name made of
-   underscores only) or starts with a non-ASCII character *)
-Definition kf_C15_camel (name : str) : bool :=
-  match pascal true name with [] => true | c :: _ => negb (is_ascii c) end.
+(* C15-variant: serde-rename-rule `variant[..1]` reached through compute_variant_name: an enum under
+   rename_all = camelCase with a variant whose name starts with a non-ASCII character (identifiers
+   are never empty; the empty string is in the class for completeness) *)
+Definition kf_C15_variant (name : str) : bool :=
+  match name with [] => true | c :: _ => negb (is_ascii c) end.
